@@ -410,6 +410,58 @@ R.contract(
     replayable=False,
 )
 
+
+# ------------------------------------------------------------------------------------------------- APIStateMachine.step: every stateful request is sent with the machine's call kwargs
+SMACH = "schemathesis.generation.stateful.state_machine:"
+
+
+def _sm_methods():
+    def log(name):
+        def f(it, obj, a, k):
+            it.ghost["log"] = it.ghost["log"] + [(name, tuple(a), dict(k))]
+            if name == "get_call_kwargs":
+                kw = DictOf(optional={"session": Opq("SessionRef"), "headers": Opq("HeadersRef"), "timeout": Int}).make(it, it.path.fresh("call_kwargs"))
+                it.ghost["call_kwargs"] = dict(kw)
+                return kw
+            if name == "call":
+                r = fresh_opaque(it, "ResponseRef")
+                it.ghost["response"] = r
+                return r
+            return None
+
+        return f
+
+    return {n: log(n) for n in ("before_call", "get_call_kwargs", "call", "after_call", "validate_response")}
+
+
+R.nominal_methods["spec:UserStateMachine"] = _sm_methods()
+
+
+def _step_setup(it):
+    from pyvc.verify import locate
+
+    _, _, fn = locate(it, SMACH + "APIStateMachine.step")
+    return fn, {}
+
+
+R.contract(SMACH + "StepOutput", abstract_only=True, args={"response": Opq("Any"), "case": Opq("Any")}, returns=lambda it, env: ("step-output", env["response"], env["case"]), note="dataclass constructor")
+R.contract(
+    SMACH + "APIStateMachine.step",
+    prop="C14",
+    setup=_step_setup,
+    args={"self": Obj("spec:UserStateMachine"), "input": Obj("spec:StepInputLike", case=Opq("StepCase"), transition=NoneT)},
+    ghost={"log": [], "call_kwargs": None, "response": None},
+    raises=[],
+    ensures={
+        # one step = before_call(case); the machine's call kwargs (session, headers, ... : where the engine puts the configured credentials) are used for the call AND for validation
+        "the_case_is_prepared_sent_with_the_machines_kwargs_and_validated": "[x[0] for x in ghost('log')] == ['before_call', 'get_call_kwargs', 'call', 'after_call', 'validate_response'] and "
+            "ghost('log')[0][1] == (input.case,) and ghost('log')[2][1] == (input.case,) and ghost('log')[2][2] == ghost('call_kwargs') and "
+            "ghost('log')[3][1] == (ghost('response'), input.case) and ghost('log')[4][1] == (ghost('response'), input.case) and ghost('log')[4][2] == ghost('call_kwargs')",
+        "the_step_output_pairs_the_response_with_its_case": "result == ('step-output', ghost('response'), input.case)",
+    },
+    replayable=False,
+)
+
 LEVEL_TEXT = ("Deductive: header precedence, override restriction (loop invariant over any number of parameters) and the token cache's double-checked lock "
               "under an explicit rely condition (cache havoced at lock acquisition) are postconditions on the real functions, discharged by z3.")
 LEVEL_NOTE = "Trusted: CaseInsensitiveDict, threading.Lock as synchronisation point (rely), frozen timer, pyvc semantics (E9). Free interleavings are not decided."
